@@ -4,8 +4,8 @@
    finalized, to its parent; no visitor reads the sets.  So the effect of visiting a node is a
    `scope` value (what it adds to the current scope), children compose by union, and
    Scope.finalize is a function from the child's final value to what the parent receives:
-      non-isolated:  read/modified/bound minus isolated_names, globals, nonlocals  (deleted and params
-                     are NOT passed on -- as in the code)
+      non-isolated:  read/modified/bound minus isolated_names, globals, nonlocals  (deleted, params and
+                     isolated_names are NOT passed on -- as in the code)
       isolated:      read minus bound
    (_process_parallel_blocks checkpoints and merges the parent: on monotone sets that is union.)
    `annotations` is not modelled (not part of the property).
@@ -15,12 +15,13 @@
       q_leak   visit_arg binds the parameter also in the annotation pass, i.e. in the scope of the
                *defining* block
       q_annfn  the declaration pass visits the parameter annotations inside the function's scope
-      q_annrd  the annotation pass records the names read by parameter annotations *)
+      q_annmiss the annotation pass does NOT record the names read by parameter annotations
+   (all three false = what CPython does; that is also what fixes/C08-visit-arg-annotation-pass.diff gives) *)
 From Coq Require Import List Arith Bool.
 Import ListNotations.
 Require Import MV.Scope.Ast.
 
-Record quirks : Set := mkq { q_leak : bool; q_annfn : bool; q_annrd : bool }.
+Record quirks : Set := mkq { q_leak : bool; q_annfn : bool; q_annmiss : bool }.
 
 Record scope : Set := mksc {
   rd : list qn; md : list qn; bd : list qn; dl : list qn;
@@ -31,10 +32,14 @@ Definition union (a b : scope) : scope :=
   mksc (rd a ++ rd b) (md a ++ md b) (bd a ++ bd b) (dl a ++ dl b)
        (gl a ++ gl b) (nl a ++ nl b) (pr a ++ pr b) (iso a ++ iso b).
 
-(* Scope.finalize, seen from the parent *)
+(* Scope.finalize, seen from the parent.  isolated_names is only ever non-empty on the scope of an
+   except handler (visit_ExceptHandler), which is never recorded: fin_handler is finalize for that
+   scope, fin_noniso for every other surrogate scope (isolated_names = {}). *)
 Definition fin_noniso (c : scope) : scope :=
-  mksc (minus (rd c) (iso c)) (minus (md c) (iso c)) (minus (bd c) (iso c)) []
-       (gl c) (nl c) [] [].
+  mksc (rd c) (md c) (bd c) [] (gl c) (nl c) [] [].
+Definition fin_handler (nm : option name) (c : scope) : scope :=
+  let i := match nm with Some n => [QS n] | None => [] end in
+  mksc (minus (rd c) i) (minus (md c) i) (minus (bd c) i) [] (gl c) (nl c) [] [].
 Definition fin_iso (c : scope) : scope :=
   mksc (minus (rd c) (bd c)) [] [] [] [] [] [] [].
 
@@ -136,10 +141,7 @@ Fixpoint visit (f : flags) (t : node) {struct t} : scope :=
         end
     | KWith => fin_noniso (visit_list f ch)
     | KBlock => fin_noniso (visit_list f ch)
-    | KHandler nm =>
-        let s := visit_list f ch in
-        fin_noniso (mksc (rd s) (md s) (bd s) (dl s) (gl s) (nl s) (pr s)
-                         (match nm with Some n => QS n :: iso s | None => iso s end))
+    | KHandler nm => fin_handler nm (visit_list f ch)
     | KDef n =>
         match ch with
         | NCons decos (NCons rets (NCons args (NCons body NNil))) =>
@@ -169,7 +171,7 @@ Fixpoint visit (f : flags) (t : node) {struct t} : scope :=
     | KArgs => empty    (* only reached through visit_args_* *)
     | KArg n =>
         if fl_annonly f then
-          union (if q_annrd Q then visit_list (with_ann f) ch else visit_list f ch)
+          union (if q_annmiss Q then visit_list f ch else visit_list (with_ann f) ch)
                 (if q_leak Q then bind_param n else empty)
         else
           union (if q_annfn Q then visit_list f ch else empty) (bind_param n)
@@ -224,10 +226,6 @@ Definition T_ITERATE := 6.   (* ITERATE_SCOPE *)
 Definition T_ARGS := 7.      (* SCOPE of node.args *)
 Definition T_BODY := 8.      (* BODY_SCOPE of a def / lambda *)
 Definition T_FN := 9.        (* ARGS_AND_BODY_SCOPE *)
-
-Definition with_iso (s : scope) (nm : option name) : scope :=
-  mksc (rd s) (md s) (bd s) (dl s) (gl s) (nl s) (pr s)
-       (match nm with Some n => QS n :: iso s | None => iso s end).
 
 Definition fn_scope (f' : flags) (args body : node) : scope :=
   union (fin_noniso (visit_args_decl f' args)) (fin_noniso (visit f' body)).
